@@ -13,6 +13,9 @@ def _cells_index():
     return ((0, 2 ** 31 - 1, False), (2 ** 31, 2 ** 32 - 1, True))
 
 
+H = 2 ** 31
+
+
 def check_child_wiring(ob, leaf, parent, cls, key, chain, i, where):
     f = T.obj_fields(leaf)
     pf = T.obj_fields(parent)
@@ -24,6 +27,35 @@ def check_child_wiring(ob, leaf, parent, cls, key, chain, i, where):
     same_term(ob, f.get('testnet'), pf['testnet'], 'child inherits the network flag', where)
     same_term(ob, f.get('parent'), parent, 'child records its parent (fingerprint source)', where)
     same_term(ob, f.get('parsed_parent_fingerprint'), T.NONE, 'derived child has no parsed fingerprint', where)
+
+
+def check_bulk(ctx, rule, kinds=('prv', 'pub')):
+    """generate_children(interval) is, for every interval - below, across and above 2^31 - exactly the list of what ckd
+    gives index by index: same children (observed through their API), same refusals under the same conditions."""
+    import ast as _ast
+    from ..evalr import Frame, _map_leaves
+    from .C13 import _observe
+    p = ctx.p
+    fgen = p.get_function('bip32.PubKeyNode.generate_children')
+    expr = _ast.parse('[self.ckd(index=i) for i in range(*interval)]', mode='eval').body
+    for be in BACKENDS:
+        for kind in kinds:
+            with ctx.obligation(rule, 'generate_children ~ ckd', '%s/%s' % (be, kind), fgen.where) as ob:
+                node = prv_node('32')[0] if kind == 'prv' else pub_node()[0]
+                for lo in (0, H - 1, H):
+                    iv = T.tup([T.const(lo), T.const(lo + 2)])
+                    ev = Evaluator(p, be)
+                    found, f1 = ev.call_function('bip32.PubKeyNode.generate_children', [node], {'interval': iv})
+                    e2 = Evaluator(p, be)
+                    fr = Frame(fgen, {'self': node, 'interval': iv}, e2._with_domain(None), fgen.module, fgen.cls, 0)
+                    expected = e2.expr(expr, fr)
+
+                    def obs(ev_, v):
+                        return _map_leaves(v, lambda x: _observe(ev_, x) if T.tag(x) in ('list', 'tuple') else x) if T.tag(v) == 'phi' \
+                            else (_observe(ev_, v) if T.tag(v) in ('list', 'tuple') else v)
+                    same_term(ob, obs(ev, found), obs(e2, expected),
+                              'generate_children((%d, %d)) on a %s node is [ckd(i) for i in range(%d, %d)] - same children, same refusals'
+                              % (lo, lo + 2, 'private' if kind == 'prv' else 'public', lo, lo + 2), fgen.where)
 
 
 def run(ctx):
@@ -69,6 +101,24 @@ def run(ctx):
                 ob.require(len(feas) >= 1, 'no returning exit of PrvKeyNode.ckd is feasible: every path that returns a child '
                            'assumes a condition the validating calls on it exclude', fckd.where,
                            found=[[T.show(x, maxdepth=4) for x in cs] for cs, _ in nl][:3])
+            fgen = p.get_function('bip32.PubKeyNode.generate_children')
+            with ctx.obligation('C01.GENCHILD', 'generate_children on a private node', cfg, fgen.where) as ob:
+                # children produced in bulk are the children ckd produces one by one - below, across and above 2^31
+                pf = T.obj_fields(node)
+                for lo in (0, H - 1, H):
+                    v, f = ev.call_function('bip32.PubKeyNode.generate_children', [node], {'interval': T.tup([T.const(lo), T.const(lo + 2)])})
+                    lists = [x for x in distinct_normal_leaves(v)]
+                    ob.require(len(lists) >= 1 and all(T.tag(x) in ('list', 'tuple') and len(x[1]) == 2 for x in lists),
+                               'generate_children((%d, %d)) returns the two children' % (lo, lo + 2), fgen.where,
+                               found=T.show(v, maxdepth=2))
+                    for x in lists:
+                        if T.tag(x) not in ('list', 'tuple'):
+                            continue
+                        for j, child in enumerate(x[1]):
+                            idx = T.const(lo + j)
+                            ekey, echain = SP.ckd_priv(k, c, idx)
+                            same_node(ob, ev, child, PRV, 'generate_children: child %d' % (lo + j), fgen.where, facts=f, prv=ekey,
+                                      chain=echain, depth=T.add(pf['depth'], T.const(1)), index=idx, testnet=pf['testnet'])
             with ctx.obligation('C01.BRANCH', 'PrvKeyNode.ckd', cfg, fckd.where) as ob:
                 for lo, hi, hardened in _cells_index():
                     facts = Facts().add(T.not_(T.lt(i, T.const(lo)))).add(T.lt(i, T.const(hi + 1)))
@@ -224,5 +274,6 @@ def run(ctx):
         if o.rule in ('C18.CKDPRIV', 'C18.MASTER'):
             o.rule = 'C01.INVALID(=%s)' % o.rule
             ctx.obligations.append(o)
+    check_bulk(ctx, 'C01.BULK', kinds=('prv',))
     # ------------------------------------------------------------------ transitivity: derive_path is a fold of ckd
     C17.check_fold(ctx, 'C01.FOLD')
